@@ -200,6 +200,11 @@ def build(variant):
             o = os.path.join(tmp, dr + ".drv.o")
             dobjs[dr] = o
             jobs.append((base + defs + ["-c", os.path.join(VERIF, "harness", dr + ".c"), "-o", o], "compile " + dr))
+        # one more consumer of the public headers, compiled as strict ISO C (the headers select other macro variants then); linked into jcdrv
+        iso_src, iso_o = os.path.join(VERIF, "harness", "iso_consumer.c"), os.path.join(tmp, "iso_consumer.o")
+        have_iso = os.path.exists(iso_src) and "jcdrv" in drivers
+        if have_iso:
+            jobs.append((base + defs + ["-std=c99", "-c", iso_src, "-o", iso_o], "compile iso_consumer"))
         with ThreadPoolExecutor(16) as ex:
             list(ex.map(lambda j: _run(*j), jobs))
         lib = os.path.join(tmp, "libjc.a")
@@ -210,7 +215,7 @@ def build(variant):
             flags = [f for f in shlex.split(v["cflags"]) if f.startswith("-fsanitize") and "fuzzer-no-link" not in f]
             if variant == "fuzz":
                 flags = []
-            lj.append(([cc] + flags + ["-rdynamic", dobjs[dr], so, lib, "-o", os.path.join(tmp, dr)] + ld, "link " + dr))
+            lj.append(([cc] + flags + ["-rdynamic", dobjs[dr]] + ([iso_o] if have_iso and dr == "jcdrv" else []) + [so, lib, "-o", os.path.join(tmp, dr)] + ld, "link " + dr))
         with ThreadPoolExecutor(16) as ex:
             list(ex.map(lambda j: _run(*j), lj))
         for o in objs + list(dobjs.values()):
